@@ -38,6 +38,7 @@ type PropConfig struct {
 	InferLoopInv    bool           `json:"infer_loop_inv"`
 	StagePurity     bool           `json:"stage_purity"`
 	OrderFns        []string       `json:"order_functions"` // functions whose output must not depend on map iteration order
+	FlagRules       []FlagRule     `json:"flag_rules"`      // configuration fields read only to guard one call
 	PurityPkgs      []string       `json:"purity_packages"` // every stage closure of these packages gets the purity rule (no symbolic execution)
 }
 
@@ -83,6 +84,13 @@ func loadKnownFindings() []KnownFinding {
 		}
 	}
 	return out
+}
+
+// FlagRule: in Function the struct field Field is read only to decide whether Callee is applied.
+type FlagRule struct {
+	Function string `json:"function"`
+	Field    string `json:"field"`
+	Callee   string `json:"callee"`
 }
 
 func runCheck(args []string) int {
@@ -264,6 +272,13 @@ func runCheck(args []string) int {
 			e.checkMapOrderIndependence(f)
 		} else {
 			drift = append(drift, n+": function not found in the current tree")
+		}
+	}
+	for _, fr := range cfg.FlagRules {
+		if f := e.findFunction(fr.Function); f != nil {
+			e.checkFlagConfined(f, fr.Field, fr.Callee)
+		} else {
+			drift = append(drift, fr.Function+": function not found in the current tree")
 		}
 	}
 	for _, p := range cfg.PurityPkgs {
